@@ -11119,7 +11119,17 @@ func E11MatrixComposers(c *core.Ctx, r *core.Report) {
 		}
 		if !composes && writes == 1 {
 			if as, ok := write.(*ast.AssignStmt); ok && as.Tok == token.ASSIGN {
-				continue // one parallel assignment reads every entry before it writes any (T swaps two entries)
+				// one parallel assignment that only moves entries around (T swaps two of them); an assignment
+				// that computes with the entries (a negated row) is a transformation applied on the wrong side
+				permutes := true
+				for _, rhs := range as.Rhs {
+					if _, ok := core.Unparen(rhs).(*ast.IndexExpr); !ok {
+						permutes = false
+					}
+				}
+				if permutes {
+					continue
+				}
 			}
 		}
 		n++
@@ -15764,4 +15774,91 @@ func E11NumberListSeparators(c *core.Ctx, r *core.Report) {
 	default:
 		r.OK("E11.number-list-separators", key, c.Pos(fd.Pos()), "")
 	}
+}
+
+// E11RecordedPathCopied: the canvas records its own copy of a path.
+func E11RecordedPathCopied(c *core.Ctx, r *core.Report) {
+	r.Rule("E11.recorded-path-copied", "a Canvas replays what was drawn when it was drawn. Path methods (Transform, Translate, LineTo, Close, …) change a path in place, so Canvas.RenderPath stores a copy in the layer it records: the value of the layer's path field is the result of Copy() — directly, or a variable whose every assignment in the function is such a result — and never the parameter itself. With the caller's pointer in the layer, `for { ctx.DrawPath(0,0,p); p = p.Translate(5,0) }` replays every stamp at the last position and Fit measures the last one only")
+	p := c.MustPkg("")
+	info := p.TypesInfo
+	fd := core.MustFuncDecl(p, "Canvas.RenderPath")
+	param := paramObj(info, fd, 0)
+	isCopy := func(e ast.Expr) bool {
+		call, ok := core.Unparen(e).(*ast.CallExpr)
+		if !ok {
+			return false
+		}
+		f := core.CalleeOf(info, call)
+		return f != nil && f.Name() == "Copy"
+	}
+	n := 0
+	ast.Inspect(fd.Body, func(m ast.Node) bool {
+		cl, ok := m.(*ast.CompositeLit)
+		if !ok {
+			return true
+		}
+		if nt, ok := info.TypeOf(cl).(*types.Named); !ok || nt.Obj().Name() != "layer" {
+			return true
+		}
+		for _, el := range cl.Elts {
+			kv, ok := el.(*ast.KeyValueExpr)
+			if !ok {
+				continue
+			}
+			if k, ok := kv.Key.(*ast.Ident); !ok || k.Name != "path" {
+				continue
+			}
+			n++
+			key := fmt.Sprintf("canvas.Canvas.RenderPath|recorded path #%d is a copy", n)
+			good := isCopy(kv.Value)
+			if id, ok := core.Unparen(kv.Value).(*ast.Ident); ok && !good {
+				o := core.ObjOf(info, id)
+				asg, copies := 0, 0
+				ast.Inspect(fd.Body, func(k ast.Node) bool {
+					if as, ok := k.(*ast.AssignStmt); ok && len(as.Lhs) == len(as.Rhs) {
+						for i, l := range as.Lhs {
+							if lid, ok := l.(*ast.Ident); ok && core.ObjOf(info, lid) == o {
+								asg++
+								if isCopy(as.Rhs[i]) {
+									copies++
+								}
+							}
+						}
+					}
+					return true
+				})
+				// the parameter counts as assigned once by the caller
+				if o == param {
+					good = asg > 0 && asg == copies && assignedBeforeUse(fd, info, o, cl.Pos())
+				} else {
+					good = asg > 0 && asg == copies
+				}
+			}
+			if good {
+				r.OK("E11.recorded-path-copied", key, c.Pos(cl.Pos()), "")
+			} else {
+				r.Fail("E11.recorded-path-copied", key, c.Pos(cl.Pos()), fmt.Sprintf("the layer records `%s`, the caller's path, not a copy: whatever the caller does to the path afterwards (Translate, LineTo, Reset) changes what the canvas replays and what Fit measures", c.Src(kv.Value)))
+			}
+		}
+		return true
+	})
+	r.Count("E11.recorded-paths", n)
+	r.Floor("E11.recorded-paths", 1)
+}
+
+// assignedBeforeUse: some assignment to o lies before pos at the top level of the function body.
+func assignedBeforeUse(fd *ast.FuncDecl, info *types.Info, o types.Object, pos token.Pos) bool {
+	for _, st := range fd.Body.List {
+		if st.Pos() >= pos {
+			break
+		}
+		if as, ok := st.(*ast.AssignStmt); ok {
+			for _, l := range as.Lhs {
+				if id, ok := l.(*ast.Ident); ok && core.ObjOf(info, id) == o {
+					return true
+				}
+			}
+		}
+	}
+	return false
 }
